@@ -20,6 +20,8 @@ func extractC12(repo string, o *Out) {
 		return
 	}
 	o.nat("minCapacity", p.ConstU(o, "minCapacity"), "deque.go const minCapacity")
+	translateC12(p, o, 64, "Tr")   // translate.go: the deque's index arithmetic, int = 64 bits
+	translateC12(p, o, 32, "Tr32") // … and int = 32 bits (the GOARCH=386 leg)
 
 	// shift amounts: `q.count<<K` in resize (new buffer size) and in shrinkIfExcess (the quarter test)
 	o.nat("growShift", c12Shift(p, o, "resize"), "deque.go resize: make([]interface{}, q.count<<K)")
@@ -386,4 +388,43 @@ func c12Skeleton(p *Pkg, o *Out) string {
 	}
 	sort.Strings(rows)
 	return strings.Join(rows, " ")
+}
+
+// translateC12 emits the deque's index arithmetic: `prev`, `next`, the buffer position read by At and written by Set,
+// and the condition of shrinkIfExcess, as functions of the fields they read (head, count, minCap, len(buf)).
+func translateC12(p *Pkg, o *Out, word int, ns string) {
+	tr := newTr(p, o, word)
+	defer tr.Emit(ns)
+	tr.Func("Deque", "prev", "Deque_prev")
+	tr.Func("Deque", "next", "Deque_next")
+	index := func(fn string) (*ast.FuncDecl, ast.Expr) {
+		fd := p.Func("Deque", fn)
+		var e ast.Expr
+		n := 0
+		if fd != nil && fd.Body != nil {
+			ast.Inspect(fd.Body, func(x ast.Node) bool {
+				if ix, ok := x.(*ast.IndexExpr); ok {
+					e = ix.Index
+					n++
+				}
+				return true
+			})
+		}
+		if n != 1 {
+			return fd, nil
+		}
+		return fd, e
+	}
+	fd, e := index("At")
+	tr.Expr("At_pos", fd, e, "Deque.At: the index of the only buffer access")
+	fd, e = index("Set")
+	tr.Expr("Set_pos", fd, e, "Deque.Set: the index of the only buffer access")
+	fd = p.Func("Deque", "shrinkIfExcess")
+	var cond ast.Expr
+	if fd != nil && fd.Body != nil && len(fd.Body.List) == 1 {
+		if is, ok := fd.Body.List[0].(*ast.IfStmt); ok && is.Init == nil {
+			cond = is.Cond
+		}
+	}
+	tr.Expr("shrink_cond", fd, cond, "Deque.shrinkIfExcess: the condition of its only statement")
 }
